@@ -118,7 +118,8 @@ def num(q, rng=None):
 
 
 def tim(q):
-    return (project.BASE + _dt.timedelta(seconds=q / 4.0)).isoformat()
+    zone, q = divmod(q, project.ZONE)
+    return (project.BASE + _dt.timedelta(seconds=q / 4.0)).isoformat() + ("", "Z", "+01:00")[zone]
 
 
 def render_item(iv):
@@ -144,7 +145,8 @@ def render_view(v, rng):
         out.append("<roEdStart>%s</roEdStart>" % tim(v["edstart"][0]))
     for s in v["stories"]:
         out.append("<story>")
-        out.append("<storyID>%s</storyID>" % escape(s["id"]))
+        out.append("<storyID>%s</storyID>" % escape(s["id"]) if s["id"] != NONE else
+                   ("<storyID/>" if rng.random() < 0.5 else "<storyID></storyID>"))
         if s["slug"] != NONE:
             out.append("<storySlug>%s</storySlug>" % escape(s["slug"]))
         if s["md"] == "nopayload":
@@ -162,7 +164,7 @@ def render_view(v, rng):
         for b in s["body"]:
             if b["kind"] == "p":
                 text = "".join(chr(c) for c in b["text"])
-                out.append("<p>%s</p>" % escape(text) if text else ("<p/>" if rng.random() < 0.5 else "<p></p>"))
+                out.append("<p>%s</p>" % escape(text, {"\r": "&#13;"}) if text else ("<p/>" if rng.random() < 0.5 else "<p></p>"))
             elif b["kind"] == "item":
                 out.append(render_item(items.pop(0)))
             else:
